@@ -111,8 +111,8 @@ def iterEvU (v : String) (inner : List KEv) : List KEv :=
 /-- `iterActiveShape` of a leaf fiber of format "U": every coordinate of `[0, n)`, absent ones with
     the default payload `getPayload` makes up -/
 def denseSrc (n : Nat) : ATree → Fib Int (List (Nat × ATree))
-  | ⟨1, f⟩ => (List.range n).map (fun c =>
-      ((c : Int), [(c, (⟨0, ((lookup (show List (Int × Tree Int Int 0) from f) (c : Int)).getD (0 : Int) : Int)⟩ : ATree))]))
+  | ⟨1, f⟩ => (List.range n).map (fun (c : Nat) =>
+      ((c : Int), [((c : Nat), (⟨0, ((lookup (show List (Int × Tree Int Int 0) from f) (c : Int)).getD (0 : Int) : Int)⟩ : ATree))]))
   | _ => []
 
 /-- the single operand iterated at `v` is a format-"U" leaf fiber -/
